@@ -35,6 +35,17 @@ def counted(f, budget, label):
     """opcount.counted, plus: a BudgetExceeded that something between the library and us swallowed (a logging handler that renders
     a record guards itself with `except Exception`) still ends the case - the counter remembers that it fired"""
     import sys
+    import resource
+    if not _MEM['limited']:
+        # a table sized by a count field must not take the machine down before it is noticed: cap the address space of this worker
+        try:
+            soft, hard = resource.getrlimit(resource.RLIMIT_AS)
+            cap = 6 << 30
+            resource.setrlimit(resource.RLIMIT_AS, (cap if hard == resource.RLIM_INFINITY else min(cap, hard), hard))
+        except (ValueError, OSError):
+            pass
+        _MEM['limited'] = True
+    rss0 = _peak_rss_kb(reset=True)
     c = opcount.Counter(budget, label)
     sys.setprofile(c)
     try:
@@ -47,12 +58,47 @@ def counted(f, budget, label):
         except Exception as e:
             if c.exceeded:
                 raise BudgetExceeded(label)
+            _memory_bound(rss0, label)
             return False, e, c.n
         if c.exceeded:
             raise BudgetExceeded(label)
+        _memory_bound(rss0, label)
         return True, v, c.n
     finally:
         sys.setprofile(None)
+
+
+_MEM = {'limited': False}
+MEM_BOUND_KB = 192 * 1024
+
+
+def _memory_bound(rss0, label):
+    """memory is work too: no call measured here (inputs of at most a few hundred KB, DAGs of a few thousand cells) may raise the peak
+    resident size of the process by more than 192 MB - a table allocated from a count field read from the input does"""
+    grown = _peak_rss_kb() - rss0
+    if grown > MEM_BOUND_KB:
+        raise BudgetExceeded(f'memory/{label}')
+
+
+def _peak_rss_kb(reset=False):
+    """peak resident set size of this process in KB. With reset=True the kernel's high-water mark is first set back to the current
+    size (writing 5 to /proc/self/clear_refs), so that the same case measures the same growth when it is replayed or shrunk in a
+    process that has already been large once; without /proc the lifetime maximum is used (first occurrence only)."""
+    if reset:
+        try:
+            with open('/proc/self/clear_refs', 'w') as f:
+                f.write('5')
+        except OSError:
+            pass
+    try:
+        with open('/proc/self/status') as f:
+            for line in f:
+                if line.startswith('VmHWM:'):
+                    return int(line.split()[1])
+    except OSError:
+        pass
+    import resource
+    return resource.getrusage(resource.RUSAGE_SELF).ru_maxrss
 
 RULE = ('DAG cases = maximal-sharing shapes (doubling ladders of height 1..200, lattices, random DAGs with repeated refs); '
         'parser cases = valid encodings whose count/length fields are rewritten to huge values, and random byte strings with '
@@ -193,7 +239,25 @@ def strat_dag(tier):
                                   'shape': st.just('random')})
 
 
-BIG = [2 ** 16 - 1, 2 ** 24 - 1, 2 ** 31, 2 ** 32 - 1, 2 ** 63, 2 ** 64 - 1, 255, 256, 65536]
+# 2^25..2^28: counts a table of that many entries can still be allocated for (0.25..2 GB) - too big to go unnoticed, too small to fail at once
+BIG = [2 ** 16 - 1, 2 ** 24 - 1, 2 ** 31, 2 ** 32 - 1, 2 ** 63, 2 ** 64 - 1, 255, 256, 65536, 2 ** 25, 2 ** 26, 2 ** 27 + 5, 2 ** 28]
+
+
+def enum_count_fields(tier):
+    specs = [[{'k': 'o', 'b': '1010', 'r': []}], [{'k': 'o', 'b': '11', 'r': []}, {'k': 'o', 'b': '0101', 'r': [0, 0]}]]
+    for si, spec in enumerate(specs):
+        for idx in (False, True):
+            for size in (1, 2, 3, 4):
+                for off in (1, 4):
+                    for name in ('cells', 'roots', 'absent', 'tot'):
+                        width = 8 * (off if name == 'tot' else size)
+                        vals = set()
+                        for k in range(3, min(width, 40) + 1):
+                            vals.update((2 ** k - 1, 2 ** k, 2 ** k + 3))
+                        for v in sorted(x for x in vals if x < 2 ** width):
+                            if tier == 'quick' and (si + v.bit_length() + size) % 2 and v < 2 ** 20:
+                                continue
+                            yield {'spec': spec, 'idx': idx, 'size': size, 'off': off, 'rewrite': [[name, v]], 'magic': 'generic'}
 
 
 def strat_boc_bytes(tier):
@@ -844,6 +908,10 @@ SUBCHECKS = [
              'logging configuration and again with everything logged and rendered'),
     Sub('random-dags', check_dag, strategy=strat_dag, classify=classify, nontrivial=nt, n=(600, 10000), shards=(8, 32), case_cpu_s=10,
         timeout_is_violation=True),
+    Sub('boc-parser-count-fields-grid', check_boc_bytes, enum=lambda tier: enum_count_fields(tier), classify=classify, nontrivial=nt, shards=(8, 16),
+        case_cpu_s=10, timeout_is_violation=True,
+        note='a small valid bag (with and without index, size 1..4) with ONE count field (cells / roots / absent / tot) rewritten to every power '
+             'of two the field can hold, and its neighbours: neither the call count nor the peak memory may follow the field'),
     Sub('boc-parser-inflated-counts', check_boc_bytes, strategy=strat_boc_bytes, classify=classify, nontrivial=nt, n=(2000, 60000),
         shards=(8, 32), case_cpu_s=10, timeout_is_violation=True),
     Sub('boc-parser-invalid-cell-over-shared-dag', check_boc_invalid_top_both_environments, enum=enum_boc_invalid_top, shards=(8, 8), case_cpu_s=10,
